@@ -42,3 +42,54 @@ def num(v, default=0):
         return int(s, 0)
     except ValueError:
         return {'TRUE': 1, 'FALSE': 0}.get(s.upper(), default)
+
+
+CORE = ['src/core/Node.cpp', 'src/core/ChunkStore.cpp', 'src/core/Types.cpp', 'src/core/UpdateCheck.cpp', 'src/dht/KademliaTable.cpp',
+        'src/network/SessionManager.cpp', 'src/network/KeyManager.cpp', 'src/network/KeyExchange.cpp',
+        'src/network/ReputationManager.cpp', 'src/network/RelayClient.cpp', 'src/crypto/ChaCha20.cpp', 'src/crypto/CryptoManager.cpp',
+        'src/crypto/Sha256.cpp', 'src/crypto/HmacSha256.cpp', 'src/crypto/Shamir.cpp', 'src/security/StoreProof.cpp',
+        'src/network/NatTraversal.cpp', 'src/network/AdvertiseDiscovery.cpp', 'src/core/SwarmCoordinator.cpp',
+        'src/protocol/Manifest.cpp', 'src/protocol/Message.cpp', 'src/bootstrap/TokenChallenge.cpp', 'src/libephemeralnet.cpp']
+DAEMON = ['src/daemon/ControlPlane.cpp', 'src/daemon/ControlClient.cpp', 'src/daemon/ControlServer.cpp', 'src/daemon/StructuredLogger.cpp']
+
+
+def build_full(driver, with_daemon=True, extra=(), exclude=()):
+    """compile replay/<driver> against ALL library sources of the CURRENT tree (objects compiled in parallel, cached by content);
+    `exclude` lists sources the driver #includes itself"""
+    import concurrent.futures as cf
+    outdir = os.path.join(os.environ.get('VERIF_BUILD') or os.path.join(ROOT, 'build'), 'replay')
+    os.makedirs(outdir, exist_ok=True)
+    inc = hashlib.sha256()
+    for root, _, fs in sorted(os.walk(os.path.join(REPO, 'include'))):
+        for f in sorted(fs):
+            inc.update(open(os.path.join(root, f), 'rb').read())
+    inc.update(' '.join(extra).encode())
+    srcs = [s for s in CORE + (DAEMON if with_daemon else []) if s not in exclude]
+    flags = ['-std=c++20', '-O1', '-I' + os.path.join(REPO, 'include'), '-I' + REPO, '-D_FILE_OFFSET_BITS=64', '-w'] + list(extra)
+
+    def obj(s):
+        h = hashlib.sha256(inc.digest() + open(os.path.join(REPO, s), 'rb').read()).hexdigest()[:16]
+        o = os.path.join(outdir, re_sub(s) + '-' + h + '.o')
+        if not os.path.exists(o):
+            r = subprocess.run(['g++'] + flags + ['-c', os.path.join(REPO, s), '-o', o + '.tmp'], stdout=subprocess.PIPE, stderr=subprocess.STDOUT)
+            if r.returncode != 0:
+                raise RuntimeError('replay build failed (%s): %s' % (s, r.stdout.decode()[-1500:]))
+            os.rename(o + '.tmp', o)
+        return o
+    with cf.ThreadPoolExecutor(max_workers=12) as ex:
+        objs = list(ex.map(obj, srcs))
+    dh = hashlib.sha256(open(os.path.join(ROOT, 'replay', driver), 'rb').read() + ''.join(objs).encode())
+    for s in exclude:
+        dh.update(open(os.path.join(REPO, s), 'rb').read())
+    exe = os.path.join(outdir, os.path.splitext(driver)[0] + '-' + dh.hexdigest()[:12])
+    if not os.path.exists(exe):
+        r = subprocess.run(['g++'] + flags + ['-fno-access-control', os.path.join(ROOT, 'replay', driver)] + objs + ['-o', exe, '-lpthread', '-lcurl'],
+                           stdout=subprocess.PIPE, stderr=subprocess.STDOUT)
+        if r.returncode != 0:
+            raise RuntimeError('replay link failed: ' + r.stdout.decode()[-1500:])
+    return exe
+
+
+def re_sub(s):
+    import re
+    return re.sub(r'\W', '_', s)
